@@ -74,7 +74,7 @@ class _Shard:
 
 
 def run(module, params, nshards=16, case_timeout=120, total_timeout=3000, libpath=None, hang_key=None,
-        max_restarts=200, extra_env=None):
+        max_restarts=200, extra_env=None, resume_in_case=False):
     """Runs `module.worker(ctx)` in nshards instrumented processes.  `params` must be JSON-serialisable."""
     res = Result()
     t0 = time.time()
@@ -86,6 +86,8 @@ def run(module, params, nshards=16, case_timeout=120, total_timeout=3000, libpat
         sh.logdir = os.path.join(workdir, 's%d-r%d' % (sh.idx, sh.restarts))
         os.makedirs(sh.logdir, exist_ok=True)
         spec = dict(module=module, params=params, shard=sh.idx, nshards=nshards, start_after=sh.start_after)
+        if getattr(sh, 'resume', None):
+            spec['resume'] = sh.resume
         specfile = os.path.join(sh.logdir, 'spec.json')
         with open(specfile, 'w') as f:
             json.dump(spec, f)
@@ -234,6 +236,11 @@ def run(module, params, nshards=16, case_timeout=120, total_timeout=3000, libpat
                 active.discard(i)
                 continue
             sh.start_after = sh.last_begin
+            sh.resume = None
+            if resume_in_case and isinstance(sh.last_begin_info, dict) and 'resume' in sh.last_begin_info:
+                # the case is a sequence of independent steps: continue it behind the step that crashed
+                sh.start_after = sh.last_begin - nshards
+                sh.resume = dict(index=sh.last_begin, at=sh.last_begin_info['resume'])
             sh.restarts += 1
             sh.last_begin = None
             start(sh)
